@@ -24,6 +24,7 @@ from fibertree.model import (Compute, LeaderFollowerIntersector, SkipAheadInters
 from fvmon import gen
 
 SPEC = {
+    "anchors": ["fibertree.model.intersect:TwoFingerIntersector.addTraces", "fibertree.model.intersect:SkipAheadIntersector.addTraces", "fibertree.model.intersect:LeaderFollowerIntersector.addTraces", "fibertree.core.iterators:__and__", "fibertree.model.compute:Compute.numSwaps", "fibertree.model.compute:Compute._numSwapsTree", "fibertree.model.compute:Compute._merge"],
     "rule": ("cases = (i) `isect`: 1..6 consecutive pairs of leaf fibers (A_i, B_i) intersected with the real `&` "
              "under Metrics with consumable intersect_0/intersect_1 traces, below 0, 1 or 2 outer loop ranks "
              "with strictly increasing loop points; the consumed traces are fed to fresh TwoFinger / SkipAhead / "
